@@ -204,6 +204,11 @@ func (c *XAConn) createNewTxOnExecIfNeed(ctx context.Context, f func() (types.Ex
 		if err != nil {
 			return nil, err
 		}
+		// the branch opened for this one statement is over when the statement returns, prepared or rolled
+		// back: the connection is in auto-commit mode again. database/sql resets the session only when a
+		// connection comes out of the pool; on a connection the application keeps (db.Conn) the next
+		// statement would otherwise find the flag cleared, open no branch and run outside the transaction.
+		defer func() { c.autoCommit = currentAutoCommit }()
 	}
 
 	// execute SQL
